@@ -35,11 +35,40 @@ IsReset(e) == e.ev = "reset"
 SignOf(z) == IF z < 0 THEN -1 ELSE IF z > 0 THEN 1 ELSE 0
 CmpExpect(e) == [cmp |-> SignOf(LabelCmpProp(e.a, e.b)), canon |-> SignOf(CanonCmpProp(e.a, e.b)), eq |-> e.a = e.b]
 
-MatchObs(exp, o) ==
-  /\ exp.kind = o.kind
-  /\ o.kind = "ok" => (exp.bytes = o.bytes /\ exp.ret = o.ret)
-  /\ o.kind \in {"ok", "err"} => exp.cb = o.cb
-  /\ (o.cmpval /\ o.kind \in {"ok", "err"}) => exp.val = o.val
+(* ---- attribution: a trace recorded for the check of property Prop is judged only on the aspects that property ----
+   ---- talks about (a change that breaks another property must not raise an alarm here)                        ---- *)
+Prop == IF "PROP" \in DOMAIN IOEnv THEN IOEnv.PROP ELSE ""
+AllAspects == {"kind", "err", "bytes", "cb", "ret", "val"}
+DecodeProps == {"C08", "C09", "C10", "C14", "C15", "C18"}
+Aspects(e) ==
+  IF Prop = "" THEN AllAspects
+  ELSE IF e.ev = "decode" \/ e.ev = "decode_value" THEN
+    (CASE Prop \in DecodeProps \cup {"C02", "C06", "C07", "C11", "C20"} -> {"kind", "val"}
+       [] Prop \in {"C12", "C13", "C01"} -> {"kind"}
+       [] OTHER -> {})
+  ELSE IF e.ev = "encode" THEN
+    (CASE Prop \in {"C02", "C06", "C07", "C20", "C14"} -> {"kind", "bytes"}
+       [] Prop \in {"C11", "C18"} -> {"kind", "bytes"}
+       [] Prop \in {"C12", "C01"} -> {"kind"}
+       [] OTHER -> {})
+  ELSE IF e.ev \in {"tbs", "verify", "struct"} THEN
+    (CASE Prop \in {"C02", "C03", "C04", "C05", "C06"} -> {"kind", "bytes", "cb", "ret"}
+       [] Prop = "C01" -> {"kind"}
+       [] OTHER -> {})
+  ELSE IF e.ev \in {"call", "new", "ctor", "build", "lit"} THEN
+    (CASE Prop = "C19" -> {"kind", "val"}
+       [] Prop \in {"C06", "C03", "C04", "C05"} -> {"kind", "cb"}
+       [] Prop = "C11" -> {"kind", "val"}
+       [] OTHER -> {})
+  ELSE IF e.ev = "canonicalize" THEN (IF Prop = "C20" THEN {"kind", "val"} ELSE {})
+  ELSE {}
+
+MatchObs(exp, o, asp) ==
+  /\ "kind" \in asp => exp.kind = o.kind
+  /\ ("bytes" \in asp /\ o.kind = "ok" /\ exp.kind = "ok") => exp.bytes = o.bytes
+  /\ ("ret" \in asp /\ o.kind = "ok" /\ exp.kind = "ok") => exp.ret = o.ret
+  /\ ("cb" \in asp /\ o.kind \in {"ok", "err"} /\ exp.kind = o.kind) => exp.cb = o.cb
+  /\ ("val" \in asp /\ o.cmpval /\ o.kind \in {"ok", "err"} /\ exp.kind = o.kind) => exp.val = o.val
 
 (* ---- the Prop layer evaluated on the recorded execution (Design |= Prop outside the palettes) ---- *)
 SameModOps(ty, a, b) ==
@@ -89,17 +118,17 @@ Consume ==
        /\ open' = (open \/ gap)
        /\ fp' = IF open \/ gap THEN FpNone ELSE NextFp(s, e, n)
        /\ \/ open \/ gap                                       \* unjudged
-          \/ MatchObs(Obs(n), o)
+          \/ MatchObs(Obs(n), o, Aspects(e))
           \/ PrintT(<<"MISMATCH", l, e.ev, ToJson([expect |-> Obs(n), event |-> e])>>)
        /\ (open \/ gap \/ n.out.kind # "err" \/ o.kind # "err" \/ n.out.err = o.err
            \/ PrintT(<<"DEVIATION", l, n.out.err, o.err>>))
        (* the property predicates themselves, on the execution the crate really performed *)
-       /\ (open \/ gap \/ e.ev # "decode" \/ e.api = "bstr" \/ PropDecode(s, e, n)
+       /\ (open \/ gap \/ e.ev # "decode" \/ e.api = "bstr" \/ Prop \notin DecodeProps \cup {"C12", "C13", ""} \/ PropDecode(s, e, n)
            \/ PrintT(<<"PROPFAIL", l, "decode", ToJson([event |-> e, design |-> Obs(n)])>>))
-       /\ (open \/ gap \/ e.ev # "decode" \/ ~fp.on \/ fp.f7 \/ fp.bytes = <<>>
+       /\ (open \/ gap \/ e.ev # "decode" \/ Prop \notin {"C07", ""} \/ ~fp.on \/ fp.f7 \/ fp.bytes = <<>>
            \/ (n.out.kind = "ok" /\ n.mem.val = fp.val[1])
            \/ PrintT(<<"PROPFAIL", l, "fixedpoint-value", ToJson([event |-> e, design |-> Obs(n)])>>))
-       /\ (open \/ gap \/ e.ev # "encode" \/ e.api = "bstr" \/ PropFixedPointEnc(e, n)
+       /\ (open \/ gap \/ e.ev # "encode" \/ e.api = "bstr" \/ Prop \notin {"C07", ""} \/ PropFixedPointEnc(e, n)
            \/ PrintT(<<"PROPFAIL", l, "fixedpoint-bytes", ToJson([event |-> e, design |-> Obs(n)])>>))
 
 TraceNext == Consume
